@@ -277,6 +277,8 @@ def check(rep, tier, seed):
         for _ in range(120 if tier == "quick" else 1500):
             src = bytearray(data)
             for _ in range(rng.randrange(1, 3)):
+                if not src:
+                    break                     # truncated to nothing by the previous step: the empty input is a case of its own
                 k = rng.randrange(len(src))
                 r = rng.random()
                 if r < 0.55:
